@@ -409,9 +409,10 @@ def slashContTrapAux : List RFeature → List FeatLayout → Bool
 def slashContTrap (r : GbRec) (ℓ : RecLayout) : Bool := slashContTrapAux r.features ℓ.feats
 
 /-- kf C01-locus-name-topology: the locus is called `linear` or `circular` and has the other topology -/
-def nameTopoTrap (r : GbRec) : Bool :=
-  (r.locus.name == c!"linear" && r.locus.topo == .circular)
-    || (r.locus.name == c!"circular" && r.locus.topo == .linear)
+def nameTopoTrapL (l : RLocus) : Bool :=
+  (l.name == c!"linear" && l.topo == .circular) || (l.name == c!"circular" && l.topo == .linear)
+
+def nameTopoTrap (r : GbRec) : Bool := nameTopoTrapL r.locus
 
 /-- "no line other than a record terminator ends in //" -/
 def noSlashEnd (r : GbRec) (ℓ : RecLayout) : Bool :=
